@@ -91,7 +91,7 @@ class Sched(object):
             self.cur = n
             self.main_ev.clear()
             self.workers[n]['ev'].set()
-            if not self.main_ev.wait(30):
+            if not self.main_ev.wait(300):
                 raise Deadlock('thread %s did not come back to the scheduler' % n)
             steps += 1
             if steps > self.max_steps:
